@@ -17,7 +17,11 @@ type rmsg struct {
 	a int
 	s string
 	c *int
+	f *[2]int // nested message ForeignMessage{c, d}
+	r []int   // repeated field
 }
+
+var allFields = []string{"a", "s", "c", "f", "r"}
 
 func rparse(s string) rmsg {
 	p := strings.Split(s, "/")
@@ -27,6 +31,20 @@ func rparse(s string) rmsg {
 		c, _ := strconv.Atoi(p[2])
 		m.c = &c
 	}
+	if len(p) == 5 {
+		if p[3] != "-" {
+			cd := strings.Split(p[3], ":")
+			c, _ := strconv.Atoi(cd[0])
+			d, _ := strconv.Atoi(cd[1])
+			m.f = &[2]int{c, d}
+		}
+		if p[4] != "-" {
+			for _, x := range strings.Split(p[4], ".") {
+				n, _ := strconv.Atoi(x)
+				m.r = append(m.r, n)
+			}
+		}
+	}
 	return m
 }
 
@@ -35,12 +53,25 @@ func (m rmsg) String() string {
 	if m.c != nil {
 		c = strconv.Itoa(*m.c)
 	}
-	return fmt.Sprintf("%d/%s/%s", m.a, m.s, c)
+	s := fmt.Sprintf("%d/%s/%s", m.a, m.s, c)
+	if m.f != nil || len(m.r) > 0 {
+		f, r := "-", "-"
+		if m.f != nil {
+			f = fmt.Sprintf("%d:%d", m.f[0], m.f[1])
+		}
+		if len(m.r) > 0 {
+			xs := make([]string, len(m.r))
+			for i, x := range m.r {
+				xs[i] = strconv.Itoa(x)
+			}
+			r = strings.Join(xs, ".")
+		}
+		s += "/" + f + "/" + r
+	}
+	return s
 }
 
-func (m rmsg) equal(o rmsg) bool {
-	return m.a == o.a && m.s == o.s && (m.c == nil) == (o.c == nil) && (m.c == nil || *m.c == *o.c)
-}
+func (m rmsg) equal(o rmsg) bool { return m.String() == o.String() }
 
 func (m rmsg) get(f string) any {
 	switch f {
@@ -48,8 +79,27 @@ func (m rmsg) get(f string) any {
 		return m.a
 	case "s":
 		return m.s
+	case "f":
+		return m.f
+	case "r":
+		return m.r
 	}
 	return m.c
+}
+
+// populated: does the message have the field (proto Has)
+func (m rmsg) populated(f string) bool {
+	switch f {
+	case "a":
+		return m.a != 0
+	case "s":
+		return m.s != ""
+	case "c":
+		return m.c != nil
+	case "f":
+		return m.f != nil
+	}
+	return len(m.r) > 0
 }
 
 func (m *rmsg) set(f string, v any) {
@@ -60,6 +110,14 @@ func (m *rmsg) set(f string, v any) {
 		m.s = v.(string)
 	case "c":
 		m.c = v.(*int)
+	case "f":
+		m.f = nil
+		if p := v.(*[2]int); p != nil {
+			cp := *p
+			m.f = &cp
+		}
+	case "r":
+		m.r = append([]int(nil), v.([]int)...)
 	}
 }
 
@@ -71,6 +129,10 @@ func (m *rmsg) clear(f string) {
 		m.s = ""
 	case "c":
 		m.c = nil
+	case "f":
+		m.f = nil
+	case "r":
+		m.r = nil
 	}
 }
 
@@ -231,10 +293,31 @@ func (o *oracle) write(op Op, old *rmsg) (rmsg, string) {
 	noop := hasUM && len(maskLetters(um)) == 0
 	if !noop {
 		m := toSet(um)
-		for _, f := range []string{"a", "s", "c"} {
+		for _, f := range allFields {
 			selected := (!restricted || w[f]) && (!hasUM || m[f])
-			if selected {
+			if !selected {
+				continue
+			}
+			switch {
+			case !hasUM || !src.populated(f) || (f != "f" && f != "r"):
+				// no update mask: the written message replaces; under a mask: a scalar is replaced, and
+				// any field the written message does not populate is cleared
 				dst.set(f, src.get(f))
+			case f == "f":
+				// under a mask a nested message is merged: populated sub-fields overwrite, the rest stays
+				cur := [2]int{}
+				if dst.f != nil {
+					cur = *dst.f
+				}
+				for i := 0; i < 2; i++ {
+					if src.f[i] != 0 {
+						cur[i] = src.f[i]
+					}
+				}
+				dst.f = &cur
+			default:
+				// under a mask a repeated field is appended to
+				dst.r = append(append([]int(nil), dst.r...), src.r...)
 			}
 		}
 		if rs, ok := op.opt("rs"); ok {
@@ -419,7 +502,7 @@ func project(op Op, m rmsg) rmsg {
 	}
 	keep := toSet(rm)
 	out := rmsg{}
-	for _, f := range []string{"a", "s", "c"} {
+	for _, f := range allFields {
 		if keep[f] {
 			out.set(f, m.get(f))
 		}
